@@ -125,6 +125,9 @@ class Monitor:
         self.templates = {}
         self.answer_rows = []
         self.forced_path = None
+        self.fault_seen = {}
+        self.fault_budget = {}
+        self.fault_ops = set()
 
 
 M = Monitor()
@@ -279,10 +282,10 @@ def _apply(self, args, subst):
     return self2, args2
 
 
-def run_twin(opname, fn, self, args, frame, subst):
+def run_twin(opname, fn, self, args, frame, subst, fail_at=None):
     hub = M.hub
     self2, args2 = _apply(self, args, subst)
-    hub.dry = {'answers': frame.get('answers', []), 'idx': 0, 'captured': []}
+    hub.dry = {'answers': frame.get('answers', []), 'idx': 0, 'captured': [], 'fail_at': fail_at}
     hub.stack.append((opname, {}))
     err = None
     try:
@@ -376,6 +379,31 @@ def judge_wellformed(opname, self, args, entries, note):
     return toks_list
 
 
+def fault_twins(opname, fn, self, args, frame, benign, r0):
+    """Fault enumeration at the driver boundary: for each statement k the operation issues, one twin run in which
+    statement k fails (transient server error).  Statements the operation issues only on that failure path
+    (clean-up, retry bookkeeping) are handed to the driver too and must be just as well-formed."""
+    ctx = M.ctx
+    nstat = len(frame.get('answers', []))
+    if nstat == 0:
+        return
+    seen = M.fault_seen.setdefault(opname, set())
+    base_texts = {e['text'] for e in r0}
+    for k in range(min(nstat, 8)):
+        if (k, nstat) in seen and len(seen) > 0 and M.fault_budget.get(opname, 0) > 6:
+            continue
+        seen.add((k, nstat))
+        M.fault_budget[opname] = M.fault_budget.get(opname, 0) + 1
+        cap, err = run_twin(opname, fn, self, args, frame, benign, fail_at=k)
+        ctx.count('fault:twin-runs')
+        extra = [dict(e, ordinal=100 + e['ordinal']) for e in cap if e.get('idx', 0) > k and e['text'] not in base_texts]
+        if extra:
+            ctx.count('fault:failure-path-statements', len(extra))
+            M.fault_ops.add(opname)
+            judge_wellformed(opname + '@after-driver-failure', self, args, extra,
+                             f'statement issued only after statement {k} of the operation failed (injected driver error)')
+
+
 def differential(opname, fn, self, args, frame):
     ctx = M.ctx
     M.answer_rows = [len(r) for r, _ in frame.get('answers', [])]
@@ -396,6 +424,7 @@ def differential(opname, fn, self, args, frame):
         judge_wellformed(opname, self, args, direct, 'as issued (baseline twin diverged: %s)' % err0)
         return
     toks0 = judge_wellformed(opname, self, args, r0, 'benign baseline (bv0, bv1, ... in every data position)')
+    fault_twins(opname, fn, self, args, frame, benign, r0)
     for e in r0:
         M.templates.setdefault(op_key(opname, e['ordinal']), e['text'] if isinstance(e['text'], str) else repr(e['text']))
     idents = {k: (v if isinstance(v, (str, int, bool)) or v is None else
